@@ -5,7 +5,7 @@
 # the demonstration again (must PASS). Writes /tmp/wt_<id>/_mut/<n>/confirm.txt
 id=$1; n=$2; wt=/tmp/wt_$id; m=$wt/_mut/$n; out=$m/confirm.txt
 cd $wt || exit 2
-git checkout -q -- . 
+git checkout -q -- src include
 exec > $out 2>&1
 echo "== mutant $id/$n $(date)"
 git apply --check $m/patch.diff || { echo "PATCH DOES NOT APPLY"; exit 1; }
@@ -28,6 +28,6 @@ for ln in open('$m/ctest_all.log',errors='replace'):
 bad=sorted(t for t in want if res.get(t)!='Passed')
 print("ctest with change: baseline tests not passing:",bad)
 PY
-git checkout -q -- .
+git checkout -q -- src include
 echo "-- clean again"; build; demo
 echo "== done $(date)"
